@@ -302,6 +302,25 @@ theorem remote_disabled_fails_closed {w : World} {id : Str} {a : Agg} (hr : w.re
             subst hx
             exact (findCluster_some hg).2
 
+/-- A proxy whose (alias-resolved) `CLUSTER_ID` is not a configured cluster gets nothing: the client-claimed cluster
+    id can only select among the clusters istiod is configured with (`ClusterAliases` rewrites it first). -/
+theorem unknown_cluster_gets_nothing (w : World) (c : Cache) (verified : Option Identity) (refs : Option (List Str))
+    (aliases : List (Str × Str)) (cid : Str) (names : List Str) (req : Option PushReq)
+    (h : findCluster (resolveAlias aliases cid) w.clusters = none) :
+    generate w c ⟨verified, resolveAlias aliases cid, refs⟩ names req = none := by
+  unfold generate
+  cases verified with
+  | none => rfl
+  | some id =>
+    simp only
+    cases req with
+    | none => rfl
+    | some rq =>
+      simp only
+      split
+      · rfl
+      · simp [World.forCluster, h]
+
 /-- **unauthorised_gets_no_key.** The "CA only, no RBAC needed" shortcut is decided on the *parsed* name, the same
     field `generate` reads: a proxy whose `(serviceAccount, namespace)` its cluster does not authorise never receives
     a private key under a `kubernetes://` name - whatever the requested string looks like (extra path segments, a
